@@ -107,6 +107,32 @@ def private_harness():
     HARNESS = dst
 
 
+def clean_lanes(prop):
+    """Removes this property's harness-crate outputs (goto binaries, up to 90 MB per harness)
+    and the matching cargo fingerprint from every lane, so that the next run re-generates
+    them from the current sources; the compiled dependency tree stays. The unit hash of the
+    harness crate depends on the enabled feature (= the property), so other properties'
+    outputs in the same lane are left alone."""
+    tag = prop.lower() + "_"
+    for k in range(LANES):
+        for d in glob.glob(os.path.join(lane_dir(k), "kani/*/debug/build/gdverif/*")):
+            outs = os.listdir(os.path.join(d, "out")) if os.path.isdir(os.path.join(d, "out")) else []
+            if outs and not any(tag in f for f in outs):
+                continue
+            h = os.path.basename(d)
+            root = os.path.dirname(os.path.dirname(os.path.dirname(d)))
+            shutil.rmtree(d, ignore_errors=True)
+            for f in glob.glob(os.path.join(root, ".fingerprint", "gdverif-" + h)) + \
+                    glob.glob(os.path.join(root, "deps", "*gdverif-" + h + "*")):
+                if os.path.isdir(f):
+                    shutil.rmtree(f, ignore_errors=True)
+                else:
+                    try:
+                        os.remove(f)
+                    except OSError:
+                        pass
+
+
 def build(prop):
     """One codegen pass for all harnesses of the property (feature = property id)."""
     os.makedirs(WORK, exist_ok=True)
@@ -115,12 +141,7 @@ def build(prop):
         shutil.copy(os.path.join(REPO, "Cargo.lock"), lock)
     # kani keeps one output directory per (crate hash, harness filter); remove the
     # harness crate's old outputs so that the metadata read below is this build's
-    for k in range(LANES):
-        for f in glob.glob(os.path.join(lane_dir(k), "kani/*/debug/build/gdverif/*/out/*gdverif*%s_*" % prop.lower())):
-            try:
-                os.remove(f)
-            except OSError:
-                pass
+    clean_lanes(prop)
     # type-check the harness crate against /repo natively first: a tree that does not
     # build is reported once, clearly, instead of as N harnesses without a verdict
     cmd = ["cargo", "check", "--offline", "--features", prop.lower(), "--target-dir",
@@ -604,12 +625,7 @@ def main():
     if not args.keep and not os.environ.get("VERIF_KEEP"):
         # the goto binaries of this run (up to 90 MB per harness) are not needed any more; the
         # lanes keep the compiled dependency tree for the next property
-        for k in range(LANES):
-            for f in glob.glob(os.path.join(lane_dir(k), "kani/*/debug/build/gdverif/*/out/*gdverif*%s_*" % prop.lower())):
-                try:
-                    os.remove(f)
-                except OSError:
-                    pass
+        clean_lanes(prop)
     if confirmed:
         sys.exit(1)
     if inconclusive:
